@@ -5,7 +5,7 @@ from .. import gen
 from ..common import Names, rat, run_impl
 
 PROP = "C19"
-LEAN_MODULE = "VK.Props.C19"
+LEAN_MODULE = "VK.Props.C19Graph"
 THEOREMS = [
     "VK.C19_symm",
     "VK.C19_zero_iff",
@@ -18,6 +18,13 @@ THEOREMS = [
     "VK.C19_edges",
     "VK.C19_adj_symm",
     "VK.C19_fix_short",
+    "VK.C19_nodes_nodup",
+    "VK.C19_node_weights_total",
+    "VK.C19_node_weight",
+    "VK.C19_lpPow_eq_sum",
+    "VK.C19_lpD_symm",
+    "VK.C19_lpD_zero_iff",
+    "VK.C19_lpD_triangle",
 ]
 RULE = ("cases = (a) triples of profiles over a common candidate set (2-5 candidates, untied rankings, partial ballots, "
         "rational weights; the second is a permuted / condensed / rescaled / perturbed copy of the first or independent) "
